@@ -5,6 +5,8 @@ pub mod c02;
 pub mod c03;
 pub mod c04;
 pub mod c05;
+#[cfg(not(feature = "xen"))]
+pub mod c06;
 pub mod c07;
 #[cfg(not(feature = "xen"))]
 pub mod c08;
@@ -24,6 +26,8 @@ pub fn dispatch(prop: &str, tier: Tier, replay: Option<String>) -> i32 {
         "C03" => c03::run(tier, replay),
         "C04" => c04::run(tier, replay),
         "C05" => c05::run("C05", tier, replay),
+        #[cfg(not(feature = "xen"))]
+        "C06" => c06::run(tier, replay),
         "C07" => c07::run(tier, replay),
         #[cfg(not(feature = "xen"))]
         "C08" => c08::run(tier, replay),
